@@ -75,7 +75,7 @@ type oneBackend struct {
 func newOneBackend(name string, sp Space) (*oneBackend, error) {
 	nh := len(sp.RegIDs)
 	if name == "kv" {
-		b, err := newKVBackend(true)
+		b, err := newKVBackend(true, sp.KV)
 		if err != nil {
 			return nil, err
 		}
